@@ -67,8 +67,11 @@ def series_record(tid, fn, a, dt, trap, rng):
     rec = {"tid": tid, "kind": "series", "fn": fn, "dt": enc(dt), "trap": bool(trap), "a": enc_seq(np.asarray(a, dtype=float))}
     if fn == "arr":
         v, d = f(a.copy() if rng.random() < 0.7 else a.tolist() if trap else a.copy(), dt, trap=trap)
-        rec.update(v=enc_seq(v), d=enc_seq(d), haspeaks=True,
-                   pga=enc(im.calc_peak(a)), pgv=enc(im.calc_peak(v)), pgd=enc(im.calc_peak(d)))
+        import warnings
+        with warnings.catch_warnings():
+            warnings.simplefilter("ignore")
+            pk = im.calc_peak if len(a) % 2 else im.calculate_peak           # deprecated alias
+            rec.update(v=enc_seq(v), d=enc_seq(d), haspeaks=True, pga=enc(pk(a)), pgv=enc(pk(v)), pgd=enc(pk(d)))
     elif fn == "arr2":     # the alias entry point, list input
         from eqsig.displacements import velocity_and_displacement_from_acceleration as g
         v, d = g(np.array(a), dt, trap=trap)
